@@ -6,7 +6,7 @@ from simlab import chain_evolve
 BASE = {
     "ttno": 2.0, "ttno_same": 1.0, "ttns_random": 3.0, "ttns_product": 0.6, "from_mps": 0.5,
     "add": 2.5, "scale": 1.2, "unary": 1.0, "apply": 2.5, "canonicalise": 1.2, "compress": 1.5,
-    "observe": 4.0, "evolve": 0.0, "lockstep": 0.0, "max_entangled": 0.4, "dump_load": 0.4, "drop": 0.3,
+    "observe": 4.0, "evolve": 0.0, "lockstep": 0.0, "max_entangled": 0.4, "optimize": 0.0, "dump_load": 0.4, "drop": 0.3,
 }
 
 TWEAKS = {
@@ -14,6 +14,7 @@ TWEAKS = {
             "observe": 1.5, "dump_load": 0.0, "from_mps": 0.2, "ttns_product": 0.2},
     "C11": {},
     "C14": {"dump_load": 8.0, "evolve": 1.0, "add": 2.0, "scale": 2.0, "unary": 1.5, "canonicalise": 2.0, "compress": 2.0, "observe": 0.5, "from_mps": 1.0, "max_entangled": 0.5},
+    "C08": {"optimize": 9.0, "ttno": 3.0, "ttns_random": 3.0, "compress": 1.5, "add": 1.0, "apply": 0.5, "observe": 0.5, "evolve": 0.5, "dump_load": 0.0, "max_entangled": 0.0},
     "C05": {"compress": 8.0, "add": 3.0, "apply": 3.0, "observe": 0.5, "evolve": 1.5, "ttns_random": 3.0},
     "C06": {"evolve": 3.0, "add": 3.0, "apply": 3.0, "compress": 2.0, "canonicalise": 2.0, "observe": 0.5, "max_entangled": 0.6},
     "C13": {"evolve": 4.0, "observe": 5.0, "drop": 1.0, "scale": 2.0, "compress": 2.0, "canonicalise": 2.0, "dump_load": 0.6},
@@ -29,7 +30,7 @@ class TreeProfile(session.Profile):
 
     def gen_header(self, rnd, tier):
         md = rnd.choice([16, 36, 64]) if self.pid == "C12" else rnd.choice([24, 64, 128])
-        aux = rnd.random() < {"C02": 0.1, "C11": 0.2, "C12": 0.3}.get(self.pid, 0.2)
+        aux = rnd.random() < {"C02": 0.1, "C11": 0.2, "C12": 0.3, "C08": 0.0}.get(self.pid, 0.2)
         h = tree.gen_header(rnd, maxdim=md, nmax=rnd.choice([3, 4, 5]), aux=aux)
         wts = dict(BASE)
         wts.update(TWEAKS.get(self.pid, {}))
@@ -39,6 +40,8 @@ class TreeProfile(session.Profile):
             elif rnd.random() < 0.3:
                 wts[k] *= rnd.choice([0.3, 3.0])
         h["weights"] = wts
+        if self.pid in ("C02", "C11") and rnd.random() < (0.4 if self.pid == "C02" else 0.15):
+            h["knobs"] = {"units_prob": 0.6}
         return h
 
     def nsteps(self, rnd, tier):
